@@ -71,7 +71,7 @@ def registry_rules(ctx, rule: str):
     r.floor(rule + ".combined-first-wins", 1)
     # the union covers all values of the member
     loops = [n for n in ast.walk(add.node) if isinstance(n, ast.For)]
-    ok = len(loops) == 1 and any(s in _src(add, loops[0].iter) for s in ("itervalues(registry)", "registry.values()")) and not any(
+    ok = len(loops) == 1 and _src(add, loops[0].iter).replace(" ", "") in ("six.itervalues(registry)", "itervalues(registry)", "registry.values()", "list(registry.values())") and not any(
         isinstance(n, (ast.If, ast.Break, ast.Continue)) for n in ast.walk(loops[0]))
     r.ob(rule + ".combined-union", add.qualname, ok, "add_registry must visit every item of the member unconditionally: `%s`" % (_src(add, loops[0]) if loops else "no loop"), add.where())
     for name, want in (("__getitem__", "self._data[item]"), ("__iter__", "iter(self._data)"), ("__len__", "len(self._data)"), ("__contains__", "item in self._data")):
